@@ -382,7 +382,8 @@ def get_formatted_string_pattern():
 
 
 def get_any_string_pattern():
-    prefix = r"[bBfFrRuU]{,4}"
+    # a prefix only counts at a word boundary: in ``x or"s"`` the ``r`` belongs to the keyword
+    prefix = r"(?:(?<!\w)[bBfFrRuU]{1,4})?"
     return get_string_pattern_with_prefix(
         prefix,
         prefix_group_name="prefix",
